@@ -679,6 +679,32 @@ impl World {
                 w.push_res(t, Res::Bool(b), None);
                 one(w)
             }
+            Op::ObsAll => {
+                let mut v: Vec<u64> = Vec::new();
+                let c = &w.ch;
+                let cap = if c.cap == usize::MAX { u64::MAX } else { c.cap as u64 };
+                let common = |v: &mut Vec<u64>| {
+                    v.push(c.queue.len() as u64);
+                    v.push(c.queue.is_empty() as u64);
+                    v.push((c.cap == c.queue.len()) as u64);
+                    v.push(cap);
+                    v.push((c.cap != usize::MAX) as u64);
+                    v.push(c.s as u64);
+                    v.push(c.r as u64);
+                    v.push((c.s == 0 && c.r == 0) as u64);
+                };
+                if !w.th[t].hs.is_empty() {
+                    common(&mut v);
+                    v.push((c.r == 0) as u64);
+                }
+                if !w.th[t].hr.is_empty() {
+                    common(&mut v);
+                    v.push((c.s == 0) as u64);
+                    v.push((c.s == 0 && c.queue.is_empty()) as u64);
+                }
+                w.push_res(t, Res::ObsVec(v), None);
+                one(w)
+            }
             Op::LockL => {
                 w.push_res(t, Res::Unit, None);
                 one(w)
@@ -859,7 +885,12 @@ pub fn explore(p: &Program, max_states: u64) -> Explored {
         }
         if !any {
             if w.th.iter().all(|t| t.phase == Phase::Finished) {
-                ex.outcomes.insert(w.results.clone());
+                let mut o = w.results.clone();
+                if p.threads.len() == 1 {
+                    o.push((999, 0, Res::Num(w.wakes[0] as u64), None));
+                    o.push((999, 1, Res::Num(w.wakes[1] as u64), None));
+                }
+                ex.outcomes.insert(o);
             } else {
                 ex.can_deadlock = true;
             }
